@@ -5,10 +5,10 @@ package main
 // through tabula.Open by name.
 
 import (
-	"strings"
 	"fmt"
 	"os"
 	"path/filepath"
+	"strings"
 	"sync"
 
 	"verif/internal/pdfdoc"
@@ -50,6 +50,41 @@ func writeDocFiles() {
 	put("pdfA", ".pdf", b, err)
 	b, err = pdfdoc.Build(l2, base, []pdfdoc.Item{{2, 11}, {1, 12}}, []pdfdoc.Item{{3, 21}})
 	put("pdfB", ".pdf", b, err)
+	// an object stream whose header goes wrong after the first entries (the fifth number is not a number): looking an
+	// object up in it fails, and fails the same way the second time
+	{
+		f := &pdfw.File{EOL: "lf"}
+		f.Revs = []pdfw.Revision{{XRef: "stream", Root: pdfw.Ref{Num: 1}, XRefNum: 9, W: [3]int{1, 3, 2},
+			Items: []pdfw.Item{
+				{Num: 1, Val: pdfw.Dict{{"Type", pdfw.Name("Catalog")}, {"Pages", pdfw.Ref{Num: 2}}}},
+				{Num: 2, Val: pdfw.Dict{{"Type", pdfw.Name("Pages")}, {"Kids", pdfw.Arr{pdfw.Ref{Num: 3}, pdfw.Ref{Num: 4}}}, {"Count", pdfw.Int(2)}}},
+				{Num: 8, IsObjStm: true, Members: []pdfw.Member{
+					{Num: 3, Val: pdfw.Dict{{"Type", pdfw.Name("Page")}, {"Parent", pdfw.Ref{Num: 2}}, {"MediaBox", pdfw.Arr{pdfw.Int(0), pdfw.Int(0), pdfw.Int(200), pdfw.Int(200)}}}},
+					{Num: 5, Val: pdfw.Int(5)}, {Num: 6, Val: pdfw.Int(6)},
+					{Num: 4, Val: pdfw.Dict{{"Type", pdfw.Name("Page")}, {"Parent", pdfw.Ref{Num: 2}}, {"MediaBox", pdfw.Arr{pdfw.Int(0), pdfw.Int(0), pdfw.Int(200), pdfw.Int(201)}}}}}}}}}
+		pdfw.PayloadFault = func(kind string, num int, payload []byte, w [3]int) []byte {
+			if kind != "objstm" {
+				return payload
+			}
+			fs := strings.Fields(string(payload))
+			if len(fs) > 4 {
+				fs[4] = "zz"
+			}
+			return []byte(strings.Join(fs, " ") + " ")
+		}
+		ob, _, oerr := f.Bytes()
+		pdfw.PayloadFault = nil
+		put("pdfBadObjStm", ".pdf", ob, oerr)
+	}
+	// the same document with every stream (contents, ToUnicode programs) behind ASCIIHex, alone and in front of Flate:
+	// filters whose output is shorter than their input invite decoding in place, into the bytes the reader has cached
+	lh := l1
+	lh.Filter = "ahx"
+	b, err = pdfdoc.Build(lh, base, []pdfdoc.Item{{2, 11}}, []pdfdoc.Item{{3, 21}})
+	put("pdfHex", ".pdf", b, err)
+	lh.Filter, lh.XRef, lh.ObjStm = "ahxfl", "stream", "dicts"
+	b, err = pdfdoc.Build(lh, base, []pdfdoc.Item{{2, 11}}, []pdfdoc.Item{{3, 21}})
+	put("pdfHexFl", ".pdf", b, err)
 	// twins of pdfA / pdfB: same object numbers and resource names, other code permutations in the fonts
 	pdfdoc.TwinShift = 5
 	b, err = pdfdoc.Build(l1, base, []pdfdoc.Item{{2, 11}}, []pdfdoc.Item{{3, 21}})
@@ -471,7 +506,7 @@ func init() {
 		if docFilePaths["pdfSix"] != "" {
 			out = append(out, forkDoc("pdfSix"))
 		}
-		for _, n := range []string{"pdfA", "pdfMixed", "pdfSharedRes", "pdfKidsLoop", "pdfKidsMissing", "pdfBadStream"} {
+		for _, n := range []string{"pdfA", "pdfHex", "pdfHexFl", "pdfBadObjStm", "pdfMixed", "pdfSharedRes", "pdfKidsLoop", "pdfKidsMissing", "pdfBadStream"} {
 			if docFilePaths[n] != "" {
 				out = append(out, handleDoc(n))
 			}
@@ -481,7 +516,7 @@ func init() {
 				out = append(out, swapDoc(n))
 			}
 		}
-		for _, n := range []string{"pdfA", "pdfA2", "pdfB", "pdfB2", "pdfTie", "pdfSharedRes", "pdfManyFonts", "pdfC", "pdfWide", "pdfStd", "docx", "xlsx", "pptx", "odt", "epub", "html", "bad", "trunc"} {
+		for _, n := range []string{"pdfA", "pdfA2", "pdfB", "pdfB2", "pdfTie", "pdfSharedRes", "pdfManyFonts", "pdfHex", "pdfC", "pdfWide", "pdfStd", "docx", "xlsx", "pptx", "odt", "epub", "html", "bad", "trunc"} {
 			if docFilePaths[n] != "" {
 				out = append(out, fileDoc(n))
 			}
